@@ -1,11 +1,35 @@
-"""Property -> rules table."""
+"""Property -> rules table (single source of truth for vcheck and MANIFEST.json)."""
 import r_reset
+import r_share
+
+NA = {
+    "C17": "first-match order of a backtracking trie matcher over runtime rule lists: no structural "
+           "invariant separates a correct builder from the known order defect without exploring "
+           "rule lists (execution, concrete or symbolic) - out of reach of static analysis "
+           "(DESIGN.md section 4)",
+}
 
 PROPS = {
     "C04": {
-        "rules": [r_reset.run],
-        "explanation": "RESET typestate dataflow over the MIR of every Worker entry point and "
-                       "observer (persistent buffers killed before use on every path; no stale "
-                       "state observable) and SHARE (deep immutability / Send+Sync of Tokenizer).",
+        "rules": [r_reset.run_tokens, r_share.run],
+        "thorough": [r_share.run_thorough],
+        "explanation": "RESET: typestate dataflow (Dirty/Clean per persistent Worker buffer) over "
+                       "the MIR of every Worker entry point and token observer, for every "
+                       "valuation of the emptiness predicate the entry points branch on: buffers "
+                       "are killed before use on every path (history independence, idempotent "
+                       "tokenize), observers read only refreshed state. SHARE: type closure of "
+                       "Tokenizer free of interior mutability/raw pointers in both build "
+                       "configurations, no mutable statics, no raw-pointer stores, and type-level "
+                       "witnesses (Send/Sync; compile_fail + compiling twins) that nothing a "
+                       "worker reads can change while it exists.",
+        "level_text": "Static structural analysis over the compiler's MIR and type information: "
+                      "every obligation holds for all sentences, histories and schedules at once. "
+                      "C04 is a structural property; the argument is complete up to the API model "
+                      "of std containers and rustc's own Send/Sync and borrow guarantees.",
+        "level_note": "Trusted: rustc type/borrow checker and MIR construction; spec/api_model.json "
+                      "(effects of std/hashbrown container methods); dependencies (crawdad, "
+                      "bincode) contain no hidden shared state beyond what their field types show.",
+        "technique": "MIR typestate dataflow (must-kill / exposed-use summaries over access paths) "
+                     "+ type-closure walk + compile_fail witnesses",
     },
 }
